@@ -226,7 +226,7 @@ def main():
         reset()
     elif mode == "replays":
         # every detected mutant: its first replay file must exit 1 on the patched tree and 0 on the clean tree
-        keep = "/tmp/selftest/replays-keep"
+        keep = f"{R.SCR}/replays-keep"
         sh(f"rm -rf {keep}; mkdir -p {keep}")
         saved = []
         want = sys.argv[2:]
